@@ -3,6 +3,7 @@ package main
 import (
 	"fmt"
 	"go/ast"
+	"go/token"
 	"go/types"
 	"strings"
 
@@ -87,15 +88,6 @@ func runC10(c *Ctx) {
 		})
 		return hit
 	}
-	isContains := func(f *Fact, perm string) (*Term, bool) {
-		if f.Op != "true" || f.A.K != 'k' || f.A.Name != "slices.Contains" || len(f.A.Args) != 2 {
-			return nil, false
-		}
-		if f.A.Args[1].K != 'c' || f.A.Args[1].Name != fmt.Sprintf("%q", perm) {
-			return nil, false
-		}
-		return f.A.Args[0], true
-	}
 	// the "no operator present" flag(s): bool locals only set true under an op test of a member
 	opsFlags := map[types.Object]bool{}
 	ast.Inspect(ac.Body(), func(n ast.Node) bool {
@@ -146,6 +138,70 @@ func runC10(c *Ctx) {
 		}
 		return true
 	})
+	// the same test delegated to a function: it returns true only where a
+	// member's permissions were found to contain "op"
+	opsPredSites := map[token.Pos]bool{}
+	opsPreds := map[*types.Func]bool{}
+	for _, cs := range p.CallSites() {
+		if cs.In.Root() != ac {
+			continue
+		}
+		f := calleeOf(cs)
+		if f == nil || f.Pkg() != ac.Pkg.Types {
+			continue
+		}
+		sig, _ := f.Type().(*types.Signature)
+		if sig == nil || sig.Results().Len() != 1 || !types.Identical(sig.Results().At(0).Type(), types.Typ[types.Bool]) {
+			continue
+		}
+		sound, seen := opsPreds[f]
+		if !seen {
+			var src *FuncSrc
+			for _, q := range p.Sources() {
+				if q.Obj == f && q.Decl != nil {
+					src = q
+				}
+			}
+			if src == nil {
+				continue
+			}
+			qf := p.Facts().Analyze(src)
+			nTrue, okAll := 0, true
+			for _, ret := range qf.Returns() {
+				if len(ret.Results) != 1 {
+					okAll = false
+					continue
+				}
+				tv := src.Pkg.TypesInfo.Types[ret.Results[0]]
+				if tv.Value != nil && tv.Value.String() == "false" {
+					continue
+				}
+				under := false
+				if st, _ := qf.At(ret); st != nil && tv.Value != nil && tv.Value.String() == "true" {
+					for _, fa := range st.Facts() {
+						if a, is := isContains(fa, "op"); is && fa.Pos && a.K == 'k' && strings.HasSuffix(a.Name, ".Permissions") {
+							under = true
+						}
+					}
+				}
+				if under {
+					nTrue++
+				} else {
+					okAll = false
+				}
+			}
+			if nTrue == 0 {
+				continue // not a test for operators at all
+			}
+			sound = okAll
+			opsPreds[f] = sound
+			c.Check(sound, "R10.1", "operator-present flag "+f.Name(), src.Pos(),
+				"returns true only under slices.Contains(member.Permissions(), \"op\")", "the function reporting that an operator is present can say so without an operator")
+		}
+		if sound {
+			opsPredSites[cs.Call.Lparen] = true
+		}
+	}
 	nonOp := func(f *Fact) bool { // !slices.Contains(perms, "op") on the joining client's permissions
 		a, is := isContains(f, "op")
 		return is && !f.Pos && a.K == 'v'
@@ -179,6 +235,14 @@ func runC10(c *Ctx) {
 		{"autokick", func(f *Fact) bool {
 			if f.Op == "true" && f.Pos && mentionsField(f.A, fAK) {
 				return true
+			}
+			if f.Op == "true" && !f.Pos && f.A.K == 'r' && f.A.Name == "res0" && opsPredSites[f.A.Pos] {
+				return true
+			}
+			if f.Op == "true" && !f.Pos && f.A.K == 'k' {
+				if fn, isFn := f.A.Obj.(*types.Func); isFn && opsPreds[fn] {
+					return true
+				}
 			}
 			return f.Op == "true" && !f.Pos && f.A.K == 'v' && opsFlags[f.A.Obj]
 		}, true, "a non-operator joins an autokick group with no operator present"},
@@ -448,8 +512,24 @@ func runC10(c *Ctx) {
 	// completeness: while autolock applies (Autolock, not yet locked) the
 	// function gives up only because an operator is present
 	{
+		// slices.ContainsFunc(members, <v holds op>) is the same test as the loop
+		opTestSite := map[token.Pos]bool{}
+		ast.Inspect(alk.Body(), func(n ast.Node) bool {
+			if call, ok := n.(*ast.CallExpr); ok {
+				if learnt := aff.containsFuncFalse(emptyState, call); learnt != nil {
+					for _, f := range learnt.Facts() {
+						if a, is := isContains(f, "op"); is && !f.Pos && a.K == 'k' && len(a.Args) == 1 && a.Args[0].K == 'o' && a.Args[0].Name == "each" {
+							opTestSite[call.Lparen] = true
+						}
+					}
+				}
+			}
+			return true
+		})
 		P := func(f *Fact) bool {
 			switch {
+			case f.Op == "true" && !f.Pos && f.A.K == 'r' && f.A.Name == "res0" && opTestSite[f.A.Pos]:
+				return true
 			case f.Op == "true" && f.Pos && mentionsField(f.A, fAL):
 				return true
 			case f.Op == "eq" && f.Pos && f.B != nil && ((f.A.K == 'n' && mentionsField(f.B, fLocked)) || (f.B.K == 'n' && mentionsField(f.A, fLocked))):
@@ -516,4 +596,15 @@ func runC10(c *Ctx) {
 	c.Check(len(badAdd) == 0 && nok > 0, "R10.5", "add: autolock evaluated on every successful path", add.Pos(),
 		"autoLockKick(g) precedes every successful return of add (a group with autolock starts locked; a description change re-evaluates it)",
 		"add can succeed without evaluating autolock (returns at "+strings.Join(badAdd, ", ")+")")
+}
+
+// isContains: the fact is about slices.Contains(X, "perm"); returns X.
+func isContains(f *Fact, perm string) (*Term, bool) {
+	if f.Op != "true" || f.A.K != 'k' || f.A.Name != "slices.Contains" || len(f.A.Args) != 2 {
+		return nil, false
+	}
+	if f.A.Args[1].K != 'c' || f.A.Args[1].Name != fmt.Sprintf("%q", perm) {
+		return nil, false
+	}
+	return f.A.Args[0], true
 }
